@@ -28,14 +28,16 @@ EmitB == buf \in ExploreFrom =>
 \* per tile-file state (as left by a write, or initially): the result of every enabled call
 FCalls(f) == SetToSeq({[op |-> "readnone", mode |-> "none", px |-> AllU]}
                       \cup {[op |-> "readmasked", mode |-> m, px |-> AllU] : m \in Modes}
+                      \cup {[op |-> "configure", mode |-> o, px |-> AllU] : o \in LoaderConfigs}
                       \cup UNION {{[op |-> "write", mode |-> m, px |-> t] : t \in TilesOf(m)} : m \in CanHold[f]})
 EmitF == (fcall.op = "none" /\ got = NoGot) =>
     LET cs == FCalls(fmt) IN
-    PrintT(<<"F", ToJson([fmt |-> fmt, mode |-> file.mode, px |-> Code(file.px),
+    PrintT(<<"F", ToJson([fmt |-> fmt, env |-> lenv, mode |-> file.mode, px |-> Code(file.px),
                           edges |-> [i \in 1..Len(cs) |->
                               LET f2 == FileAfter(file, cs[i])
                                   g2 == GotAfter(file, cs[i])
-                              IN <<cs[i].op, cs[i].mode, Code(cs[i].px), f2.mode, Code(f2.px),
+                                  e2 == IF cs[i].op = "configure" THEN cs[i].mode ELSE lenv
+                              IN <<cs[i].op, cs[i].mode, Code(cs[i].px), e2, f2.mode, Code(f2.px),
                                    g2.kind, g2.mode, Code(g2.px), g2.sz>>]])>>)
 
 \* per state of the two-position machine: every enabled call and the state it leads to
@@ -50,6 +52,7 @@ EmitP ==
                             src |-> [i \in 1..Len(S) |-> Code(S[i])],
                             open |-> SetToSeq({<<kp[1], kp[2], PState(pfile, OpenTo(kp[1], kp[2]))>> : kp \in opens}),
                             mut |-> SetToSeq({<<x[1], x[2], x[3], PState(pfile, MutTo(x[1], x[2], S[x[3]]))>> :
-                                              x \in live \X {"fill", "update"} \X (1..Len(S))}),
+                                              x \in live \X {"fill", "update", "set"} \X (1..Len(S))}
+                                             \cup {<<k, "clear", 0, PState(pfile, MutTo(k, "clear", AllU))>> : k \in live}),
                             close |-> SetToSeq({<<k, PState(CloseFiles(k), CloseHands(k))>> : k \in live})])>>)
 =============================================================================
